@@ -78,6 +78,21 @@ def programs():
     P.append(('index', None, [('setitem', 'a', S('a0', True)), ('setitem', 'b', L('b0', True))],
               [('block', [('setitem', 'a', S('a1', True)), ('popitem', True), ('setitem', 'c', S('c1', True))]),
                ('block', [('delitem', 'a'), ('setitem', 'a', S('a2', True)), ('pop', 'c')])]))
+    # expired file-backed rows removed by the lazy cull of later writes, by add/incr over them, and by peeks
+    P.append(('cache', None,
+              [('reset', 'cull_limit', 0)] + [('set', 'x%d' % i, S('x%d' % i, True), {'expire': -1}) for i in range(4)] +
+              [('push', S('qx', True), 'q', 'back'), ('set', 'live', S('l0', True)), ('reset', 'cull_limit', 2)],
+              [('add', 'x0', S('x0b', True)), ('incr', 'x1', 5), ('set', 'n1', S('n1', True)), ('set', 'n2', B('n2', True)),
+               ('reset', 'cull_limit', 0), ('set', 'y', S('y0', True), {'expire': -1}), ('push', S('qy', True), 'q', 'front'),
+               ('touch', 'y', -5), ('peekitem', True), ('peek', 'q', 'front'), ('get', 'live')]))
+    # size-based eviction of file-backed rows inside the writing transaction
+    P.append(('cache', None,
+              [('reset', 'eviction_policy', 'least-recently-stored'), ('reset', 'cull_limit', 3)] +
+              [('set', 'e%d' % i, S('e%d' % i, True)) for i in range(6)],
+              [('reset', 'size_limit', 1), ('set', 'f1', S('f1', True)), ('add', 'f2', L('f2', True)), ('push', S('f3', True), None, 'back'),
+               ('incr', 'cnt', 1), ('cull',)]))
+    P.append(('deque', 5, [('append', S('d%d' % i, i % 2 == 0)) for i in range(5)],
+              [('maxlen', 2), ('remove', crash.payload('d4', True)), ('maxlen', 4), ('extendleft', [1, 2, 3])]))
     P.append(('deque', 2, [('append', S('d0', True)), ('append', S('d1', True))],
               [('block', [('append', S('d2', True)), ('appendleft', S('d3', True)), ('pop',)]),
                ('append', S('d4', True)), ('appendleft', B('d5', True))]))
@@ -214,7 +229,10 @@ def judge(dc, res, d, kind, maxlen, acceptable, label, wit):
         with warnings.catch_warnings():
             warnings.simplefilter('ignore')
             after_fix = crash.contents(dc, d, kind)
-        if after_fix != got:
+        def live_only(c):
+            # expired rows may legitimately be culled by the write above
+            return [x for x in c if not (isinstance(x, (tuple, list)) and len(x) == 2 and str(x[1]).startswith("(('<MISSING>'"))]
+        if live_only(after_fix) != live_only(got):
             res.violation('repair changed the contents', dict(wit, before=got[:10], after=after_fix[:10]))
             return False
         problems = observe.invariant(d)
